@@ -759,6 +759,17 @@ func (x *Exec) havocVar(st *State, o types.Object) {
 
 func (x *Exec) havocHeap(st *State, key string) {
 	old := x.getHeap(st, key)
+	if strings.HasPrefix(key, "xclosed:") {
+		// may only become closed
+		oc := old.(Term)
+		if oc.S == "true" {
+			return
+		}
+		n := x.vc.fresh("closed", sortBool)
+		x.assume(st, tImp(oc, n))
+		st.heap[key] = n
+		return
+	}
 	st.heap[key] = x.freshLike(old, key)
 }
 
